@@ -94,7 +94,10 @@ func parallel(total int64, n int, f func(w int, k int64)) {
 func violation(prop, sig, msg string, v *Vec) *explore.Violation {
 	cfg, _ := json.Marshal(v)
 	vi := &explore.Violation{Property: prop, Engine: "pots", Signature: sig, Message: msg, Config: cfg, Choices: v.Choices,
-		History: []string{fmt.Sprintf("n=%d contrib=%v fold=%v strength=%v order=%v", len(v.Contrib), v.Contrib, v.Fold, v.Strength, v.Order)}}
+		History: []string{fmt.Sprintf("n=%d contrib=%v fold=%v strength=%v order=%v pots_read_after_every_contributor=%v", len(v.Contrib), v.Contrib, v.Fold, v.Strength, v.Order, v.Reads)}}
+	if v.Prev != nil {
+		vi.History = []string{fmt.Sprintf("first (%s): n=%d contrib=%v fold=%v strength=%v", v.Pair, len(v.Prev.Contrib), v.Prev.Contrib, v.Prev.Fold, v.Prev.Strength), vi.History[0]}
+	}
 	vi.Confirm = func() (bool, string) { return Replay(vi) }
 	return vi
 }
@@ -111,10 +114,13 @@ func RunC16(rep *explore.Report, tier string) {
 	if tier == "thorough" {
 		maxN, devBound, fullOrderN = 5, 2, 4
 	}
-	rep.Set("rule", fmt.Sprintf("every vector of n<=%d contributions in 0..4 with every fold flag; for n<=%d every insertion order (larger n: ascending and descending), every map iteration order with <=%d non-default choices per execution; plus 5, 6 and 7 players with contributions in {1,2,3} and 8, 9 (thorough: 10) players with contributions in {1,2}, inserted in ascending and descending seat order; oracle refLayers; distinct_nontrivial = distinct pot structures observed", maxN, fullOrderN, devBound))
+	rep.Set("rule", fmt.Sprintf("every vector of n<=%d contributions in 0..4 with every fold flag; for n<=%d every insertion order (larger n: ascending and descending), every map iteration order with <=%d non-default choices per execution, and once more with GetPots also called after every AddContributor (a list that is read while it is filled); plus 5, 6 and 7 players with contributions in {1,2,3} and 8, 9 (thorough: 10) players with contributions in {1,2}, inserted in ascending and descending seat order; oracle refLayers; distinct_nontrivial = distinct pot structures observed", maxN, fullOrderN, devBound))
 	rep.Set("map_order_deviation_bound", int64(devBound))
+	if RunPairs(rep, "C16", tier) {
+		return
+	}
 	var structures sync.Map
-	var nStruct, execs, vectors int64
+	var nStruct, execs, vectors, readsBetween int64
 	for n := 1; n <= maxN; n++ {
 		orders := perms(n)
 		if n > fullOrderN {
@@ -148,9 +154,17 @@ func RunC16(rep *explore.Report, tier string) {
 					}
 				})
 				atomic.AddInt64(&execs, int64(e))
+				// the same list read while it is being filled: GetPots after every AddContributor
+				vr := &Vec{Contrib: base.Contrib, Fold: base.Fold, Order: ord, Reads: true}
+				if sig, msg := CheckPots(vr.Contrib, vr.Fold, BuildPots(vr)); sig != "" {
+					rep.Violation(violation("C16", sig, msg, vr))
+				}
+				atomic.AddInt64(&execs, 1)
+				atomic.AddInt64(&readsBetween, 1)
 			}
 		})
 	}
+	rep.Set("executions_with_pots_read_after_every_contributor", readsBetween)
 	// reduced domain for more players: contributions in {1,2,3}, every fold flag, ascending and descending insertion
 	for _, n := range []int{5, 6, 7, 8, 9, 10} {
 		vals := []int64{1, 2, 3}
@@ -177,8 +191,8 @@ func RunC16(rep *explore.Report, tier string) {
 				kk /= 2
 			}
 			atomic.AddInt64(&vectors, 1)
-			for _, ord := range [][]int{asc, desc} {
-				v := &Vec{Contrib: base.Contrib, Fold: base.Fold, Order: ord}
+			for oi, ord := range [][]int{asc, desc, asc} {
+				v := &Vec{Contrib: base.Contrib, Fold: base.Fold, Order: ord, Reads: oi == 2}
 				pots := BuildPots(v)
 				if sig, msg := CheckPots(v.Contrib, v.Fold, pots); sig != "" {
 					rep.Violation(violation("C16", sig, msg, v))
@@ -214,6 +228,9 @@ func RunC02(rep *explore.Report, tier string) {
 		maxN, devN = 5, 4
 	}
 	rep.Set("rule", fmt.Sprintf("every vector of n<=%d players x contribution 0..4 x fold flag x strength class 0..2 fed to pot.LevelList and settlement.Result exactly as the engine does (for n<=%d also every map order with <=1 non-default choice); plus 5 players with contributions in {1,2,3,4} 6 players with contributions in {1,2,4} and 7 players with contributions in {1,2}, strengths {0,1}; oracle refSettle on the per-player changes; distinct_nontrivial = distinct result vectors observed", maxN, devN))
+	if RunPairs(rep, "C02", tier) {
+		return
+	}
 	var execs, vectors, constrained int64
 	var outcomes sync.Map
 	var nOut int64
@@ -314,6 +331,13 @@ func Replay(v *explore.Violation) (bool, string) {
 	var vec Vec
 	if err := json.Unmarshal(v.Config, &vec); err != nil {
 		return false, err.Error()
+	}
+	if vec.Prev != nil {
+		sig, msg := runPair(v.Property, vec.Prev, &vec, vec.Pair)
+		if sig == v.Signature {
+			return true, msg
+		}
+		return false, "oracle silent (" + sig + ")"
 	}
 	runtime.LockOSThread()
 	defer runtime.UnlockOSThread()
